@@ -687,6 +687,97 @@ func init() {
 		reg("go.universe.tf/metallb/internal/k8s/controllers."+n, func(in *Interp, fr *frame, a []Value) Value { return "" })
 	}
 
+	// ---- condition variables, timers, scheduling
+	reg("(*sync.Cond).Wait", func(in *Interp, fr *frame, a []Value) Value { in.condWait(fr, a[0].(*Value)); return nil })
+	reg("(*sync.Cond).Signal", func(in *Interp, fr *frame, a []Value) Value { in.condSignal(a[0].(*Value), false); return nil })
+	reg("(*sync.Cond).Broadcast", func(in *Interp, fr *frame, a []Value) Value { in.condSignal(a[0].(*Value), true); return nil })
+	reg("time.After", func(in *Interp, fr *frame, a []Value) Value { return in.newTimerChan() })
+	reg("time.Sleep", func(in *Interp, fr *frame, a []Value) Value {
+		if in.sched != nil {
+			in.sched.yield(nil, "sleep")
+		}
+		return nil
+	})
+	reg(vrtPath+"Yield", func(in *Interp, fr *frame, a []Value) Value {
+		// let every other goroutine run until it blocks: the caller is blocked until nobody else can run
+		if in.sched == nil {
+			return nil
+		}
+		s := in.sched
+		me := s.cur
+		s.yield(func() bool {
+			for _, g := range s.gs {
+				if g != me && !g.done && (g.blocked == nil || g.blocked()) {
+					return false
+				}
+			}
+			return true
+		}, "harness yield")
+		return nil
+	})
+	reg(vrtPath+"TimerPending", func(in *Interp, fr *frame, a []Value) Value { return Bool(len(in.pendingTimers()) > 0) })
+	reg(vrtPath+"FireTimer", func(in *Interp, fr *frame, a []Value) Value {
+		ts := in.pendingTimers()
+		if len(ts) == 0 {
+			return tFalse
+		}
+		t := ts[len(ts)-1] // the most recently armed timer is the live one
+		for _, o := range ts {
+			o.fired = true // older timers were replaced by the program and can never be observed again
+		}
+		t.buf = append(t.buf, zero(in.pkgType("time", "Time")))
+		return tTrue
+	})
+	reg(vrtPath+"Track", func(in *Interp, fr *frame, a []Value) Value {
+		if in.tracked == nil {
+			in.tracked = map[*Value]bool{}
+		}
+		var walk func(v Value, depth int)
+		seen := map[*Value]bool{}
+		walk = func(v Value, depth int) {
+			if depth > 8 {
+				return
+			}
+			switch x := v.(type) {
+			case *Value:
+				if x == nil || seen[x] {
+					return
+				}
+				seen[x] = true
+				in.tracked[x] = true
+				walk(*x, depth+1)
+			case Struct:
+				for i := range x {
+					in.tracked[&x[i]] = true
+					walk(x[i], depth+1)
+				}
+			case Array:
+				for i := range x {
+					in.tracked[&x[i]] = true
+					walk(x[i], depth+1)
+				}
+			case Slice:
+				for i := range x {
+					in.tracked[&x[i]] = true
+					walk(x[i], depth+1)
+				}
+			case Iface:
+				walk(x.v, depth+1)
+			case *Map:
+				if x != nil {
+					for _, e := range x.order {
+						walk(e.val, depth+1)
+					}
+				}
+			}
+		}
+		if itf, ok := a[0].(Iface); ok {
+			walk(itf.v, 0)
+		}
+		return nil
+	})
+	reg(vrtPath+"RaceFree", func(in *Interp, fr *frame, a []Value) Value { return Bool(in.raceReport == "") })
+
 	// ---- os
 	reg("os.Getenv", func(in *Interp, fr *frame, a []Value) Value { return "" })
 	reg("os.LookupEnv", func(in *Interp, fr *frame, a []Value) Value { return Tuple{"", tFalse} })
